@@ -451,7 +451,7 @@ func VerifObserve(emit func(string, string)) {
 		Src: new(%(s)s), Dest: new(dest.%(d)s), To: "%(to)s", From: "%(from)s",
 		Masks: %(masks)s,
 		FromMasks: %(fmasks)s,
-		RoundTrip: %(rt)s,
+		RoundTrip: %(rt)s,%(ctors)s
 	})
 }
 """
@@ -498,7 +498,9 @@ def make_case(cid, spec, masks=None, fmasks=None, roundtrip=False, prop="C05"):
     to, frm = method_names(spec)
     oracle = ORACLE_TMPL % {"pkg": pkg, "mod": mod, "s": spec["sname"], "d": spec["dname"], "to": to, "from": frm,
                             "masks": go_strs(masks or []), "fmasks": go_strs(fmasks or []),
-                            "rt": "true" if roundtrip else "false"}
+                            "rt": "true" if roundtrip else "false",
+                            "ctors": ("\n\t\tSrcCtor: New%s," % spec["sname"] if spec["src"]["kind"] == "new" else "") +
+                                     ("\n\t\tDestCtor: dest.New%s," % spec["dname"] if spec["dest"]["kind"] == "new" else "")}
     return {"id": cid, "spec": spec, "files": files, "runs": runs, "oracle": {"src": oracle},
             "sexp": case_sexp(cid, spec, masks, fmasks, prop), "cmd": "cd src && shoot " + " ".join(runs[-1]["args"]),
             "masks": masks or [], "fmasks": fmasks or []}
@@ -1046,6 +1048,7 @@ WITNESSES = {
         ("F_ctorNoSub", mk_spec([F("Addr", SRC_SUB)], [F("addr", DEST_SUB, get=True)], way="to", dest_kind="new")),
         ("F_ptrEmbedSetter", mk_spec([F("Name", STR)], [E(ST("Core", [F("name", STR)], "new"), True), F("other", INT, new=True)],
                                      way="to", dest_kind="new")),
+        ("F_ctorArgNil", mk_spec([F("zone", INT)], [E(ST("Base", [F("Zone", INT)]), True)], way="from", src_kind="new", sname="Order")),
         # witnesses of repaired regions, kept as regression inputs (region WF now)
         ("fixed-setOnlyRead", mk_spec([F("Wo", INT)], [F("wo", INT, set=True)], dest_kind="new")),
         ("fixed-ctorPriority", mk_spec([F("Wide", INT)], [F("wide", I64)], way="to", funcs=[(INT, I64)], dest_kind="new")),
